@@ -29,6 +29,9 @@ ENDINGS = [
     'syntax_instr', 'syntax_unknown_instr', 'unknown_phase', 'act_syntax',
     'undefined_symbol', 'missing_home_file',
     'hard_setup', 'hard_before_assert', 'hard_assert', 'hard_cleanup', 'hard_act',
+    # the OS refuses to start a program for another reason than "not found" / "permission denied" (an executable text
+    # file without #! line: ENOEXEC), in each phase
+    'hard_exec_setup', 'hard_exec_act', 'hard_exec_before_assert', 'hard_exec_assert', 'hard_exec_cleanup',
     'missing_include', 'preproc_fail', 'preproc_nonexec', 'preproc_killed', 'preproc_exit_255', 'preproc_stderr_only',
     'no_case_file', 'unknown_option', 'bad_utf8',
     'suite_syntax_error', 'suite_missing_include',
@@ -127,6 +130,20 @@ def build(case, probe_path):
     elif e == 'hard_cleanup':
         as_ = [good]
         cl = ['$ exit 1']
+    elif e.startswith('hard_exec_'):
+        files['not-a-program'] = ('exe', 'echo this file has no interpreter line\n')
+        as_ = [good]
+        ph = e[len('hard_exec_'):]
+        if ph == 'setup':
+            setup = ['run not-a-program']
+        elif ph == 'act':
+            act = ['not-a-program']
+        elif ph == 'before_assert':
+            ba = ['run not-a-program']
+        elif ph == 'assert':
+            as_ = [good, 'run not-a-program']
+        else:
+            cl = ['run not-a-program']
     elif e == 'hard_act':
         setup = ['file not-executable.txt = "x"']
         act = ['-rel-act not-executable.txt']
@@ -188,11 +205,16 @@ def build(case, probe_path):
     return files, argv, name
 
 
+_ALIAS = {'hard_exec_setup': 'hard_setup', 'hard_exec_act': 'hard_act', 'hard_exec_before_assert': 'hard_before_assert',
+          'hard_exec_assert': 'hard_assert', 'hard_exec_cleanup': 'hard_cleanup'}
+
+
 def expected(case):
     """-> dict(kind=..., ident=..., sandbox=bool) ; kind in
        'table' (identifier+code from the table), 'usage' (64, no identifier), 'passthrough' (--act completed),
        'any_error_row' (bad utf-8: only a consistent error row is demanded), 'act_cleanup' (see ASSUMPTIONS)"""
     e, st, mode = case['ending'], case['status'], case['mode']
+    e = _ALIAS.get(e, e)
     if e in ('no_case_file', 'unknown_option'):
         return {'kind': 'usage'}
     if e == 'bad_utf8':
